@@ -21,6 +21,7 @@ type HistDriverOpts struct {
 	World    WorldOpts
 	PerHist  func(w *World) // replaces RunHistory when set
 	Only     int            // run only this history index (1-based), 0 = all
+	SignedHalf bool         // every second history runs in signed mode (transactions through the installed ante handler)
 }
 
 // RunHist runs N independent random histories on fresh chains and writes one concatenated trace;
@@ -36,7 +37,11 @@ func RunHist(tracePath, statsPath string, d HistDriverOpts) error {
 		if d.Only > 0 && i+1 != d.Only {
 			continue
 		}
-		w, err := NewWorld(d.Seed*1_000_003+int64(i), tr, i+1, d.World)
+		wo := d.World
+		if d.SignedHalf {
+			wo.Chain.Signed = i%2 == 1
+		}
+		w, err := NewWorld(d.Seed*1_000_003+int64(i), tr, i+1, wo)
 		if err != nil {
 			return err
 		}
